@@ -389,6 +389,13 @@ def run_case(ctx, i, rng):
             lost = len(g._edges) - len(g_nc._edges)
             ctx.check("custom-types-claim-own-lines", got_custom == n_custom and lost == n_custom and len([r for r in recs_nc if r.levelno >= logging.WARNING]) == len(junk) + n_custom,
                       feats, {"custom_lines": n_custom, "custom_objects": got_custom, "lost_without_registration": lost}, case)
+            # a registered type may also claim a built-in tag: registered types are asked first, so every EDGE_SE2 line becomes one of its objects
+            g_ov, _ = load_with_log(M.Graph.from_g2o, path, custom_edge_types=ctypes + [custom.OverridingOdometry])
+            want = sum(1 for t, kind in lines if kind == "EDGE_SE2")
+            got = sum(1 for e in g_ov._edges if type(e) is custom.OverridingOdometry)
+            plain = sum(1 for e in g_ov._edges if type(e) is M.EdgeOdometry and isinstance(e.estimate, M.PoseSE2))
+            ctx.check("custom-types-claim-own-lines", got == want and plain == 0 and len(g_ov._edges) == len(g._edges), dict(feats, variant="registered type claims the built-in tag EDGE_SE2"),
+                      {"EDGE_SE2_lines": want, "claimed": got, "left_to_builtin_parser": plain}, case)
         else:
             ctx.check("custom-types-claim-own-lines", True)
         # no state across loads: load another file with clashing ids and parameter ids, then this file again
